@@ -25,11 +25,12 @@ import itertools
 import os
 import shutil
 import tempfile
+import zlib
 
 import numpy as np
 from hypothesis import strategies as st
 
-from vt.core import Reject, Violation
+from vt.core import Reject, Violation, dumps
 from vt.gen import hod_files as hf
 
 ID = 'C12'
@@ -43,16 +44,17 @@ ASSUMPTIONS = [
     'reference = arrays as constructed from the descriptor; numpy argsort/equality trusted',
     'chunk c of n_chunks owns slabs [c*ceil(n/n_chunks), min((c+1)*ceil(n/n_chunks), n)) (the documented split); chunks owning no slab are not generated',
     'the owned slabs hold >= 1 halo (AbacusHOD.__init__ takes min/max of the masses afterwards)',
+    'numpy.histogramdd (called by AbacusHOD.__init__ after staging returned; 100^4 bins, 800 MB) is stubbed in the check process except for descriptors with real_hist=true (about 1 in 150)',
 ]
 
-_counter = itertools.count()
+_gc_tick = itertools.count()
 _extra = {'constructions': 0, 'resort_cases': 0, 'halo_rows_compared': 0, 'particle_rows_compared': 0}
 
 
 def config(tier):
     if tier == 'quick':
-        return dict(shards=6, examples=260, numba_threads=2, boundscheck=False, shrink_calls=120, soft_s=100)
-    return dict(shards=12, examples=2600, numba_threads=2, boundscheck=[False, False, True], shrink_calls=300, soft_s=800)
+        return dict(shards=6, examples=400, numba_threads=1, boundscheck=False, shrink_calls=120, soft_s=100)
+    return dict(shards=12, examples=2600, numba_threads=1, boundscheck=[False, False, True], shrink_calls=300, soft_s=800)
 
 
 def extra_evidence():
@@ -75,7 +77,7 @@ def _desc(draw):
     hmax = 4 if small else 15
     nh = draw(st.lists(st.one_of(st.integers(1, hmax), st.sampled_from([0, 1, 2, hmax])), min_size=ns, max_size=ns))
     npart = draw(st.lists(st.one_of(st.integers(0, 40), st.sampled_from([0, 1])), min_size=ns, max_size=ns))
-    n_chunks = draw(st.sampled_from([1, 1, 1, 2, 2, 3, 4]))
+    n_chunks = draw(st.sampled_from([1, 1, 1, 1, 1, 2, 2, 3, 4]))
     if halo_lc:
         n_chunks = draw(st.sampled_from([1, 1, 2]))
     cands = hf.valid_chunks(ns, n_chunks)
@@ -86,7 +88,8 @@ def _desc(draw):
         nh[0] = max(nh[0], 1)
         cands = [0]
     chunk = draw(st.sampled_from(cands + ([-1] if 0 in cands else [])))
-    order = draw(st.sampled_from(hf.ORDERS))
+    order = draw(st.sampled_from([o for o in hf.ORDERS if o != 'increasing'] * 2 + ['increasing']))
+    perm = draw(st.permutations(list(range(sum(nh))))) if order == 'explicit' else None
     tracers = draw(st.sampled_from([
         {'LRG': True, 'ELG': False, 'QSO': False},
         {'LRG': True},
@@ -128,11 +131,50 @@ def _desc(draw):
         box_ix=draw(st.integers(0, 2)),
         fill_seed=draw(st.integers(0, 2**31 - 1)),
     )
+    # un-stubbed numpy.histogramdd in the constructor (see _cheap_histogramdd) for ~1 descriptor in 150; chosen by a
+    # hash of the descriptor (Hypothesis over-samples the end points of any range, and such a case costs 1.7 s / 800 MB)
+    if perm is not None:
+        d['perm'] = list(perm)
+    if zlib.crc32(dumps(d).encode()) % 150 == 0:
+        d['real_hist'] = True
     return d
 
 
 def strategy(tier):
     return _desc()
+
+
+EXHAUSTIVE_NOTE = {
+    'quick': 'every arrangement of H = 2..4 distinct halo ids over slab files: all H! file orders x all 2^(H-1) splits of the file-order sequence into non-empty consecutive slabs (220 cases), all flags on, 3 particles per slab, no chunking',
+    'thorough': 'every arrangement of H = 2..5 distinct halo ids over slab files: all H! file orders x all 2^(H-1) splits into non-empty consecutive slabs (2140 cases), all flags on, 3 particles per slab, no chunking',
+}
+
+
+def _compositions(n):
+    if n == 0:
+        yield []
+        return
+    for first in range(1, n + 1):
+        for rest in _compositions(n - first):
+            yield [first] + rest
+
+
+def exhaustive(tier, shard, nshards):
+    hmax = 4 if tier == 'quick' else 5
+    i = 0
+    for Hn in range(2, hmax + 1):
+        for comp in _compositions(Hn):
+            for perm in itertools.permutations(range(Hn)):
+                i += 1
+                if i % nshards != shard:
+                    continue
+                yield dict(
+                    nh=list(comp), np=[3] * len(comp), order='explicit', perm=list(perm), id_scale='small', id_base=0, id_dtype='<u8',
+                    z_mock=0.5, halo_lc=False, tracers={'LRG': True, 'ELG': False, 'QSO': False}, force_mt=False,
+                    want_ranks=True, rank_fields=['ranksp', 'ranksr', 'ranksc'], want_AB=True, want_shear=True, want_expvel=bool(i % 2),
+                    want_rsd=True, omit_false_flags=False, veldev_1d=False, grouped=True, decoys=False, clustering=False,
+                    chunk=-1, n_chunks=1, mpart_ix=0, box_ix=0, fill_seed=i,
+                )
 
 
 # --------------------------------------------------------------------------- descriptor facts
@@ -146,6 +188,8 @@ def _validate(d):
         raise Reject('bad counts')
     if d['order'] not in hf.ORDERS:
         raise Reject('bad order')
+    if d['order'] == 'explicit' and sorted(d.get('perm', [])) != list(range(sum(nh))):
+        raise Reject('perm is not a permutation')
     if d.get('halo_lc') and len(nh) != 1:
         raise Reject('light cone has one file')
     z = float(d['z_mock'])
@@ -213,19 +257,58 @@ def classes(d):
     if primary and sum(p for p, h in zip(d['np'][start:end], d['nh'][start:end]) if h) == 0:
         c.append('no-particles')
     c.append('ids=' + d.get('id_scale', 'small'))
+    if d.get('real_hist'):
+        c.append('real-histogramdd')
     return c
 
 
 # --------------------------------------------------------------------------- the check
 
 
+_root = {}
+
+
 def _scratch():
-    base = os.environ.get('VERIF_SCRATCH')
-    if base:
-        os.makedirs(base, exist_ok=True)
-        return tempfile.mkdtemp(prefix='c12-%d-' % next(_counter), dir=base)
-    os.makedirs('/verif/.work', exist_ok=True)
-    return tempfile.mkdtemp(prefix='c12-', dir='/verif/.work')
+    """One directory tree per process, reused between cases (files are removed after every case)."""
+    if 'dir' not in _root:
+        base = os.environ.get('VERIF_SCRATCH')
+        if base:
+            os.makedirs(base, exist_ok=True)
+            _root['dir'] = tempfile.mkdtemp(prefix='c12-', dir=base)
+        else:
+            import atexit
+
+            os.makedirs('/verif/.work', exist_ok=True)
+            _root['dir'] = tempfile.mkdtemp(prefix='c12-', dir='/verif/.work')
+            atexit.register(shutil.rmtree, _root['dir'], True)
+    return _root['dir']
+
+
+class _cheap_histogramdd:
+    """AbacusHOD.__init__ finishes (after staging) by binning the halo masses into 100^3- and 100^4-bin
+    numpy.histogramdd tables: 800 MB and ~1.1 s per construction, none of which C12 observes.  While the
+    constructor runs, numpy.histogramdd is replaced *in this process* by a stub that returns an empty table
+    with the right number of axes; staging() and everything it returns are untouched (the histogram is computed
+    from copies after staging returned).  Descriptors with real_hist=true (generated rarely) run the real one."""
+
+    def __init__(self, active):
+        self.active = active
+
+    def __enter__(self):
+        if self.active:
+            self.orig = np.histogramdd
+
+            def histogramdd(sample, bins=10, range=None, density=None, weights=None):
+                nd = np.asarray(sample).shape[1]
+                return np.zeros((1,) * nd), list(bins)
+
+            np.histogramdd = histogramdd
+        return self
+
+    def __exit__(self, *a):
+        if self.active:
+            np.histogramdd = self.orig
+        return False
 
 
 def _first_bad(got, exp, rtol=0.0):
@@ -252,10 +335,11 @@ def run_case(d):
     try:
         return _run(d, root, start, end)
     finally:
-        import gc
+        if next(_gc_tick) % 64 == 63:
+            import gc
 
-        gc.collect()  # staging leaves its h5py/asdf handles to the collector
-        shutil.rmtree(root, ignore_errors=True)
+            gc.collect()  # staging leaves its asdf handle to the collector
+        hf.remove_files(root)
 
 
 def _run(d, root, start, end):
@@ -263,7 +347,8 @@ def _run(d, root, start, end):
 
     fx = hf.build(d, root)
     try:
-        ball = AbacusHOD(fx.sim_params, fx.HOD_params, fx.clustering_params, chunk=int(d['chunk']), n_chunks=int(d['n_chunks']))
+        with _cheap_histogramdd(not d.get('real_hist')):
+            ball = AbacusHOD(fx.sim_params, fx.HOD_params, fx.clustering_params, chunk=int(d['chunk']), n_chunks=int(d['n_chunks']))
     except (KeyboardInterrupt, MemoryError):
         raise
     except BaseException as e:
@@ -405,7 +490,7 @@ def _run(d, root, start, end):
         raise Violation('staging-pinds-shape', 'pinds shape %r dtype %s, expected (%d,) integer' % (pinds.shape, pinds.dtype, npt))
     if npt:
         if pinds.min() < 0 or pinds.max() >= nh:
-            raise Violation('staging-pinds-out-of-range', 'pinds in [%d,%d], %d halos' % (pinds.min(), pinds.max(), nh))
+            raise Violation('staging-pinds-wrong-host', 'host index outside the halo table: pinds in [%d,%d], %d halos' % (pinds.min(), pinds.max(), nh))
         host = hid[pinds]
         w = np.flatnonzero(host != pt['halo_id'])
         if len(w):
